@@ -256,8 +256,9 @@ func (c *c07Chain) build(s c07TxSpec) (*transaction.Transaction, int64) {
 		base = c.baseOverride
 	}
 	for _, a := range s.signers {
-		f, _ := fee.Calculate(base, a.signer.Script())
-		calc += f
+		// the threshold of a standard witness from the closed form proved for the model, NOT from the calculator
+		// under test (a calculator that is off would otherwise move the probes with it)
+		calc += c07OwnCalc(base, a.M, a.N)
 	}
 	tx := mk(s.netfee(size, calc), c.nonce)
 	if s.mutate != nil {
@@ -343,6 +344,8 @@ type c07ShapeIn struct {
 	Seed   uint64   `json:"seed"`
 	Shapes [][2]int `json:"shapes"`
 	Delta  int64    `json:"delta"`
+	// the committee sets this execution fee factor (picoGAS) before the probe; 0 = the default 300000
+	ExecFee int64 `json:"execfee,omitempty"`
 }
 
 func c07RunBoundary(co *caseOut, in c07ShapeIn) {
@@ -354,6 +357,16 @@ func c07RunBoundary(co *caseOut, in c07ShapeIn) {
 		accts = append(accts, c07MakeAcct(r, s[0], s[1]))
 	}
 	c.fund(1000_0000_0000, accts...)
+	if in.ExecFee != 0 {
+		ptx := c.e.CommitteeInvoker(c.policy).PrepareInvoke(c.t, "setExecFeeFactor", in.ExecFee)
+		c.addBlock(ptx)
+		c.e.CheckHalt(c.t, ptx.Hash())
+		c.baseOverride = in.ExecFee
+		if got := c.bc.GetBaseExecFee(); got != in.ExecFee {
+			co.violation("boundary", fmt.Sprintf("the node reports base exec fee %d; the Policy contract was set to %d", got, in.ExecFee), in, nil)
+			return
+		}
+	}
 	base := c.bc.GetBaseExecFee()
 	maxgas := c.bc.GetMaxVerificationGAS()
 	fpb := c.bc.FeePerByte()
@@ -367,7 +380,7 @@ func c07RunBoundary(co *caseOut, in c07ShapeIn) {
 			gas, err := c.bc.VerifyWitness(a.hash(), tx, &w, maxgas)
 			inv, e1 := c07Opcodes(w.InvocationScript)
 			ver, e2 := c07Opcodes(w.VerificationScript)
-			si := c07ShapeIn{Seed: in.Seed, Shapes: [][2]int{{a.M, a.N}}}
+			si := c07ShapeIn{Seed: in.Seed, Shapes: [][2]int{{a.M, a.N}}, ExecFee: in.ExecFee}
 			impl := map[string]any{"calc_fee": cf, "calc_size": cs, "vm_gas": gas, "wit_size": io.GetVarSize(&w), "err": fmt.Sprint(err)}
 			if err != nil || e1 != nil || e2 != nil {
 				if cf <= maxgas {
@@ -408,12 +421,17 @@ func c07RunBoundary(co *caseOut, in c07ShapeIn) {
 	shapes, _ := c07Shapes(accts)
 	impl := map[string]any{"accepted": err == nil, "class": cls, "calc": calc, "size": tx.Size(), "netfee": tx.NetworkFee}
 	tag := fmt.Sprintf("%dsigners/delta%+d", len(accts), in.Delta)
+	if in.ExecFee != 0 {
+		tag += "/governed"
+		if in.ExecFee%10000 != 0 {
+			tag += "-fractional"
+		}
+	}
 	co.add("boundary", tag, true, in, impl,
 		fmt.Sprintf("CBoundary %d %d %s %s %s", base, maxgas, shapes, coqZi(in.Delta), coqBool(err == nil)))
 	within := true
 	for _, a := range accts {
-		f, _ := fee.Calculate(base, a.signer.Script())
-		within = within && f <= maxgas
+		within = within && c07OwnCalc(base, a.M, a.N) <= maxgas
 	}
 	if within && (err == nil) != (in.Delta >= 0) {
 		co.violation("boundary", fmt.Sprintf("network fee = calculated fee %+d: accepted=%v (%s)", in.Delta, err == nil, cls), in, impl)
@@ -500,6 +518,18 @@ func c07Dispatch(co *caseOut, kind string, raw json.RawMessage) error {
 			return err
 		}
 		run(func() { c07RunPack(co, in) })
+	case "drain":
+		var in c07DrainIn
+		if err := json.Unmarshal(raw, &in); err != nil {
+			return err
+		}
+		run(func() { c07RunDrain(co, in) })
+	case "feevalue":
+		var in c07FeeValIn
+		if err := json.Unmarshal(raw, &in); err != nil {
+			return err
+		}
+		run(func() { c07RunFeeVal(co, in) })
 	default:
 		return fmt.Errorf("unknown kind %q", kind)
 	}
@@ -514,6 +544,7 @@ func runC07(args []string) error {
 			"admit: a funded sender's transaction valid or made invalid in 1-2 chosen respects (system fee cap, script, expiry, not yet valid, blocked signer, size, fee below size*feePerByte+attribute fees, already on chain, named as conflict on chain, wrong signature, wrong witness script, attribute rules, balance, duplicate, pool conflict); "+
 			"wstate: a transaction co-signed by a non-standard verification script (Ledger.currentIndex < or >= N, GAS.balanceOf(X) < v, constant true) or a deployed contract's verify method, submitted, then 1-4 blocks that flip the witness or not; "+
 			"chist: 1-3 on-chain transactions naming the same hash in Conflicts, co-signed by the later submitter and/or a stranger, in blocks up to MaxTraceableBlocks+2 apart on a chain with MaxTraceableBlocks 6..12, then the named transaction submitted 0..MaxTraceableBlocks+1 blocks later; "+
+			"drain: three payers (one possibly 2-of-3) with 2-4 pooled transactions each and drains (the most prioritised transactions: GAS.transfer of most of a payer's GAS to a sink or to another payer, paid by the payer itself or by another payer and co-signed), MaxTransactionsPerBlock 1-3, 3-5 rounds of pack/block/refresh with the balance left covering exactly the first J remaining transactions -1/0/+1, and a probe submission at the edge of what is left; feevalue/governed boundary: fee.Calculate as a value and the threshold -1/0 at fractional execution fee factors (300001 in every run) for signature, 1-of-1, 2-of-3, 3-of-4; "+
 			"pack: 256-265 equal tiny transactions with MaxBlockSize within 2 bytes of the block of the first 252/253/254 (var-uint boundary of the count); pools of 6-30 transactions under small MaxTransactionsPerBlock/MaxBlockSize/MaxBlockSystemFee, with and without StateRootInHeader; "+
 			"non-trivial: multi-signature shape / any boundary / any admit case with a defect / a pack where a limit cut the set; distinct by Coq term")
 	co.shard = 60
@@ -561,6 +592,23 @@ func runC07(args []string) error {
 		if r.chance(15) {
 			c07Dispatch(co, "boundary", enc(c07ShapeIn{Seed: r.next(), Shapes: [][2]int{s}, Delta: 1}))
 		}
+	}
+	// fractional execution fee factors (the committee sets picoGAS): in EVERY run the factor 300001 and one more, with
+	// signature, 1-of-1, 2-of-3 and 3-of-4 witnesses at the threshold and one Datoshi below (the threshold from the closed
+	// form proved for the model), the real witness against the NeoVM model at that factor, fee.Calculate as a value
+	fracFactors := []int64{300001, pick(r, []int64{1, 7, 9999, 10001, 123457, 299999, 600001, 999999})}
+	if thorough {
+		fracFactors = []int64{300001, 1, 7, 9999, 10001, 123457, 299999, 600001, 999999, 1000000}
+	}
+	for _, f := range fracFactors {
+		for _, s := range [][2]int{{0, 0}, {1, 1}, {2, 3}, {3, 4}} {
+			for _, d := range []int64{0, -1} {
+				c07Dispatch(co, "boundary", enc(c07ShapeIn{Seed: r.next(), Shapes: [][2]int{s}, Delta: d, ExecFee: f}))
+			}
+		}
+	}
+	for _, f := range []int64{300001, 1, 7, 9999, 10001, 123457, 299999, 300000, 600001, 999999, 1000000} {
+		c07Dispatch(co, "feevalue", enc(c07FeeValIn{Seed: r.next(), Base: f, Shapes: [][2]int{{0, 0}, {1, 1}, {1, 2}, {2, 3}, {3, 4}, {7, 10}, {16, 16}, {3, 17}}}))
 	}
 	// the multisig builder alone, at the widths of emit.Int and up to 1024 keys
 	bshapes := [][2]int{{16, 17}, {17, 17}, {1, 127}, {127, 128}, {128, 129}, {3, 255}, {255, 256}, {1, 1024}, {1024, 1024}}
@@ -610,6 +658,10 @@ func runC07(args []string) error {
 	// pack
 	for i := 0; i < cf.n/10; i++ {
 		c07Dispatch(co, "pack", enc(c07GenPack(r, thorough)))
+	}
+	// pack histories with blocks that move GAS
+	for i := 0; i < cf.n/8; i++ {
+		c07Dispatch(co, "drain", enc(c07GenDrain(r)))
 	}
 	keys := make([]string, 0)
 	for k := range c07Seen {
